@@ -20,7 +20,8 @@ LEVEL_TEXT = ("A state is a script; a transition appends one statement. Every sc
               " The alphabet also holds a Hive table with key=value properties next to the \"input.regex\" statement, statements with a backslash-escaped quote, and a same-named table in another schema (ALTER/INDEX statements that name the bare table must stay with it)."
               " A table may be defined twice: an ALTER / INDEX belongs to the nearest preceding definition and later statements never change earlier entities."
               ' Defect hunt: a second Hive RegexSerDe table with its own "input.regex", unsupported ALTER TABLE forms that share a prefix with supported ones (DEFAULT CHARACTER SET, OWNER TO, DISABLE TRIGGER).'
-              ' Wave 6: a temp-table-style name (#a1) next to a1; an unsupported ALTER TABLE .. SET SERDEPROPERTIES carrying its own "input.regex".')
+              ' Wave 6: a temp-table-style name (#a1) next to a1; an unsupported ALTER TABLE .. SET SERDEPROPERTIES carrying its own "input.regex".'
+              " Wave 7 (scale sweep): every script length 4..40 (thorough ..120) with 14 statement kinds (tables, ALTER / INDEX on the most recent a<j> table, sequence, type, Hive table, SET, schema, DROP, two unsupported ones) cycling from every offset, every statement carrying its own index in its names and values.")
 LEVEL_NOTE = ("The library has no incremental API, so every history is executed from scratch (no pruning by state). Depth bound 3 rests "
               "on carriers being reset per statement (a leak reaches at most the next statement).")
 RULE = ("case = sequence of statements from the alphabet (or a pair of corpus scripts); expected = concatenation of stand-alone results "
@@ -90,7 +91,7 @@ CORPUS_PARTNERS = ["T1", "T2", "SEQ", "KW", "SEL", "P_LP"]
 
 
 def bounds(tier):
-    return {"depth_full_alphabet": 2, "depth_supported": 3, "alphabet": len(ALL), "unsupported_insertions": 2 if tier == "thorough" else 1,
+    return {"depth_full_alphabet": 2, "depth_supported": 3, "alphabet": len(ALL), "scale_script_length": 120 if tier == "thorough" else 40, "unsupported_insertions": 2 if tier == "thorough" else 1,
             "corpus": "all ordered pairs of corpus scripts" if tier == "thorough" else "corpus scripts x 6 generated partners, both orders"}
 
 
@@ -138,6 +139,10 @@ def gen_cases(tier):
                         s.insert(p2, u2)
                         s.insert(p1, u1)
                         cases.append({"kind": "seq", "seq": s})
+    # scale sweep: every script length 4..40 (thorough ..120), the statement kinds cycling from every offset, every statement unique
+    for n in range(4, (120 if tier == "thorough" else 40) + 1):
+        for off in (range(len(LONG_T)) if (tier == "thorough" or n <= 14) else (0, 4, 9)):
+            cases.append({"kind": "long", "n": n, "off": off})
     C = corpus_scripts()
     for i in range(len(C)):
         for k in CORPUS_PARTNERS:
@@ -148,6 +153,41 @@ def gen_cases(tier):
             for j in range(len(C)):
                 cases.append({"kind": "corpus_pair", "i": i, "j": j})
     return cases
+
+
+LONG_T = [("def", "CREATE TABLE a{i} (p int, q int);"), ("tab", "CREATE TABLE s1.t{i} (a int NOT NULL, b varchar(10) DEFAULT 'x{i}', PRIMARY KEY (a));"),
+          ("alt", "ALTER TABLE a{j} ADD CONSTRAINT u{i} UNIQUE (p);"), ("uns", "INSERT INTO t1 VALUES ({i}, 'x');"), ("tab", "CREATE SEQUENCE s1.q{i} START {i} INCREMENT BY 2;"),
+          ("tab", "CREATE TABLE u{i} (\n  c int,\n  d decimal(10,2) CHECK (d > {i})\n);"), ("alt", "CREATE INDEX ix{i} ON a{j} (p, q);"), ("tab", "CREATE TYPE s1.m{i} AS ENUM ('sad{i}', 'ok');"),
+          ("uns", "SELECT (a FROM t{i};"), ("tab", "CREATE EXTERNAL TABLE h{i} (x int, y MAP<STRING, INT>) STORED AS PARQUET LOCATION 's3://a/b{i}';"),
+          ("tab", "SET x{i} = {i};"), ("tab", "CREATE SCHEMA s9{i};"), ("alt", "ALTER TABLE a{j} ADD CONSTRAINT f{i} FOREIGN KEY (q) REFERENCES o{i} (x);"), ("tab", "DROP TABLE zz{i};")]
+
+
+def long_script(case):
+    """-> (statement texts, expected entities): statement i is template (i + off) mod 14, every name carries i; an ALTER / INDEX aims at the
+    most recent a<j> table (and is replaced by a new a<i> table while there is none)"""
+    stm, segs, last, jdef = [], [], None, {}
+    for i in range(case["n"]):
+        kind, tpl = LONG_T[(i + case["off"]) % len(LONG_T)]
+        if kind == "alt" and last is None:
+            kind, tpl = LONG_T[0]
+        if kind == "def":
+            last = len(segs)
+            segs.append([tpl.format(i=i)])
+        elif kind == "alt":
+            segs[last].append(tpl.format(i=i, j=jdef[last]))
+        elif kind == "tab":
+            segs.append([tpl.format(i=i)])
+        if kind == "def":
+            jdef[last] = i
+        stm.append(tpl.format(i=i, j=jdef.get(last, i)))
+    exp = []
+    for sg in segs:
+        r, _ = alone("\n".join(sg))
+        if r[0] != "ok":
+            return stm, None
+        exp.extend(entities(r[1]))
+    return stm, exp
+
 
 
 def _run(ddl):
@@ -238,6 +278,13 @@ def evaluate(case):
         return {"diffs": diffs, "nontrivial": len(seq) >= 2 and bool(exp), "outcome": str(len(exp)), "state_ids": [sid],
                 "transitions": len(seq), "traces": 1, "perturbed": pert,
                 "last_token_value": st1["last_token"] if st1 else None}
+    if case["kind"] == "long":
+        stm, exp = long_script(case)
+        if exp is None:
+            return {"diffs": [diff("stand-alone run", "alone-raises", "result", "exception")], "outcome": "exc"}
+        diffs, r, st = _cmp("\n".join(stm), exp, "long script n=%d off=%d" % (case["n"], case["off"]))
+        sid = hashlib.sha1(json.dumps([r, st], sort_keys=True, default=str).encode()).hexdigest()
+        return {"diffs": diffs, "nontrivial": bool(exp), "outcome": "long:%d" % (len(exp) // 8), "state_ids": [sid], "transitions": case["n"], "traces": 1}
     C = corpus_scripts()
     if case["kind"] == "corpus_gen":
         a, b = C[case["i"]], ALL[case["k"]]
@@ -262,7 +309,7 @@ def extra_coverage(tier, cases, results):
     lt = set()
     for c, r in zip(cases, results):
         ids.update(r.get("state_ids", []))
-        for p in r.get("perturbed", []):
+        for p in r.get("perturbed", []) if c["kind"] == "seq" else []:
             pert.setdefault(p, []).append(c["seq"][0])
         if r.get("last_token_value"):
             lt.add(r["last_token_value"])
@@ -294,6 +341,8 @@ def features(case):
 
 
 def script_of(case):
+    if case["kind"] == "long":
+        return "\n".join(long_script(case)[0])
     if case["kind"] == "seq":
         return "\n".join(ALL[k] for k in case["seq"])
     C = corpus_scripts()
